@@ -125,6 +125,10 @@ def gen_seq(rng, sid):
         r = rng.random()
         if r < 0.15:
             text = f'${fname}[*][ append("extra", count_lines()) ]'
+        elif r < 0.27:
+            # a csvpath whose validity check makes Python emit a warning (a regex re.compile accepts with a FutureWarning): how it is
+            # treated depends on the process-wide warnings filter, which parsing installs
+            text = f'${fname}[1*][ @seen = count_lines() regex(#0, /^[[:alnum:]]+$/) ]'
         elif r < 0.4:
             text = f'${fname}[*][ @n = count_headers() print("$.csvpath.headers") @h = count_headers_in_line() ]'
         else:
@@ -180,6 +184,9 @@ def run(ctx):
     kbad = coq_bad(ctx, "c19k", "Csv.CsvModel Data.DataModel Mgr.Cache Harness.C19Cmp", "c19k", klits, ["c19k_spec", "c19k_agree false", "c19k_agree true"], chunk=300)
     # (b)
     seqs = [gen_seq(rng, i) for i in range(40 if quick else 1200)]
+    # the witness of the open finding cache-keyed-by-path-only, in every run
+    seqs.append([{"text": "$w.csv[*][ yes() ]", "rows": [["a", "b"], ["1", "2"], ["3", "4"]], "fname": "w.csv", "how": "paths"},
+                 {"text": "$w.csv[*][ yes() ]", "rows": [["k", "v", "z"]] + [[f"n{i}", str(i), "y"] for i in range(1, 8)], "fname": "w.csv", "how": "paths"}])
     sres = pmap(ctx, seq_job, [(i, ctx.pkg, s) for i, s in enumerate(seqs)], chunksize=1)
     fails = []
     stale = []      # open finding D24: the cache is keyed by the path only
@@ -229,7 +236,7 @@ def run(ctx):
     ctx.coverage.update({
         "evaluations": len(kjobs) + jobs_run + sum(len(s) for s in seqs), "distinct_nontrivial": len({json.dumps(s, sort_keys=True) for s in seqs}),
         "rule": "(b) includes sequences (40%) in which the file at a path already read is replaced by other content between jobs; (a) header rows of 0-4 cells from a hostile pool (leading quote, embedded quote, comma, newline, empty, spaces, non-ASCII) through the real FileCacher write + a fresh "
-                "FileCacher read; (b) sequences of 2-6 jobs over 1-2 files (60% with hostile header cells; generated csvpaths, header-inspecting csvpaths, 15% append()) created directly / by a "
+                "FileCacher read; (b) sequences of 2-6 jobs over 1-2 files (60% with hostile header cells; generated csvpaths, header-inspecting csvpaths, 15% append(), 12% a regex whose compilation warns) created directly / by a "
                 "shared CsvPaths / by a new CsvPaths, run in one subprocess with a cold cache, again in a second subprocess with the cache populated, each job vs its twin alone in a fresh "
                 "subprocess (lines, variables, printouts, errors, verdict, counters, headers); (c) ast footprint of class/module-level mutable state. Non-trivial = distinct sequences.",
         "samples": [{"sequence": [{"csvpath": x["text"], "file": x["fname"], "created": x["how"]} for x in seqs[0]]}],
